@@ -313,7 +313,14 @@ impl TypeEntry {
                 _ => Err(Error::invalid_value()),
             },
             // Note that min and max values are handled already by the
-            // conversion routines since we have those close at hand.
+            // conversion routines since we have those close at hand. That
+            // covers a default given with the integer schema itself; a
+            // default reaches us from an enclosing schema as well (an element
+            // of an array, map or tuple default, a member of an object
+            // default), so make sure the value fits the chosen type.
+            TypeEntryDetails::Integer(itype) if !integer_fits(itype, default) => {
+                Err(Error::invalid_value())
+            }
             TypeEntryDetails::Integer(itype) => match (default.as_u64(), default.as_i64()) {
                 (None, None) => Err(Error::invalid_value()),
                 (Some(0), _) => Ok(DefaultKind::Intrinsic),
@@ -403,6 +410,33 @@ impl TypeEntry {
             (format!("defaults::{}", fn_name), Some(def))
         }
     }
+}
+
+/// Check that an integer value is representable in the named integer type
+/// (one of the primitive or `::std::num::NonZero*` types we select). Types we
+/// don't recognize and non-integral values are left to the caller.
+fn integer_fits(itype: &str, value: &serde_json::Value) -> bool {
+    let value = match (value.as_u64(), value.as_i64()) {
+        (Some(value), _) => value as i128,
+        (None, Some(value)) => value as i128,
+        (None, None) => return true,
+    };
+    let (name, nonzero) = match itype.strip_prefix(STD_NUM_NONZERO_PREFIX) {
+        Some(rest) => (rest.to_ascii_lowercase(), true),
+        None => (itype.to_string(), false),
+    };
+    let (min, max) = match name.as_str() {
+        "u8" => (u8::MIN as i128, u8::MAX as i128),
+        "u16" => (u16::MIN as i128, u16::MAX as i128),
+        "u32" => (u32::MIN as i128, u32::MAX as i128),
+        "u64" => (u64::MIN as i128, u64::MAX as i128),
+        "i8" => (i8::MIN as i128, i8::MAX as i128),
+        "i16" => (i16::MIN as i128, i16::MAX as i128),
+        "i32" => (i32::MIN as i128, i32::MAX as i128),
+        "i64" => (i64::MIN as i128, i64::MAX as i128),
+        _ => return true,
+    };
+    min <= value && value <= max && !(nonzero && value == 0)
 }
 
 pub(crate) fn validate_default_for_external_enum(
